@@ -163,6 +163,7 @@ class Param():
         self.all_updated = Caller()
         self.is_updated = False
         self._initialized = Event()
+        self._toc_complete = False
 
         self.values = {}
 
@@ -223,7 +224,9 @@ class Param():
 
             # Once all the parameters are updated call the
             # callback for "everything updated"
-            if self._check_if_all_updated() and not self.is_updated:
+            # (a value that arrives while the TOC is still being downloaded
+            # is checked against the complete TOC later on)
+            if self._toc_complete and self._check_if_all_updated() and not self.is_updated:
                 self.is_updated = True
                 self._initialized.set()
                 self.all_updated.call()
@@ -264,6 +267,10 @@ class Param():
         """
         Initiate a refresh of the parameter TOC.
         """
+        def toc_complete():
+            self._toc_complete = True
+            refresh_done_callback()
+
         def refresh_done():
             extended_elements = list()
 
@@ -275,10 +282,10 @@ class Param():
             if len(extended_elements) > 0:
                 extended_type_fetcher = _ExtendedTypeFetcher(self.cf, self.toc)
                 extended_type_fetcher.start()
-                extended_type_fetcher.set_callback(refresh_done_callback)
+                extended_type_fetcher.set_callback(toc_complete)
                 extended_type_fetcher.request_extended_types(extended_elements)
             else:
-                refresh_done_callback()
+                toc_complete()
 
         self._useV2 = self.cf.platform.get_protocol_version() >= 4
         toc_fetcher = TocFetcher(self.cf, ParamTocElement,
@@ -289,6 +296,7 @@ class Param():
     def _connection_requested(self, uri):
         # Reset the internal state on connect to make sure we have a clean state
         self.is_updated = False
+        self._toc_complete = False
         self.toc = Toc()
         self.values = {}
         self._initialized.clear()
@@ -300,6 +308,7 @@ class Param():
         # Do not clear self.is_updated here as we might get spurious parameter updates later
 
         # Clear all values from the previous Crazyflie
+        self._toc_complete = False
         self.toc = Toc()
         self.values = {}
 
